@@ -1,4 +1,5 @@
 """C10 - proved on the incoming-handler chain (see contracts/handlers_c.py and DESIGN.md section 8)."""
+from . import gateway_units as gu
 from . import handlers_common as hc
 from . import handlers_native as hn
 
@@ -12,7 +13,13 @@ EXPLANATION = ("Every function between the leaf handlers and the dispatch is sym
 
 
 def build(world):
-    return hc.build_for(world, PROP)
+    # the wrapper asks through Gateway.send and is verified against send's contract ("a send that raises wrote nothing and left the
+    # buffers as they were"): that contract is proved here too, on Gateway.send and the outgoing handlers, so that a change on the
+    # sending side (seed C10h: an outgoing handler that records the request before it writes) fails a helper clause in this check
+    # and the wrapper is re-proved with the sending side inlined
+    units = hc.build_for(world, PROP)
+    have = {u.name for u in units}
+    return units + [u for u in gu.send_units(world) if u.name not in have]
 
 
 def replay(world, ob):
